@@ -215,6 +215,22 @@ pub fn probe_run<P, Q>(
     ProbeRun { steps, init_events, final_state, receipts, storage, cache, truncated }
 }
 
+/// Cross-check of this stepping loop against `vmtrace::trace` on the same transaction: same
+/// instructions, same outcomes, same storage events, same final state.  Returns differences.
+pub fn cross_check<P, Q>(t: &Trace, r: &ProbeRun<P, Q>) -> Vec<String> {
+    let mut d = vec![];
+    let exec: Vec<&Step> = t.steps.iter().filter(|s| s.kind == StepKind::Exec).collect();
+    if exec.len() != r.steps.len() { d.push(format!("step count {} vs {}", exec.len(), r.steps.len())); }
+    for (a, (pre, _, post, _)) in exec.iter().zip(r.steps.iter()) {
+        if a.pc != pre.pc || a.raw != pre.raw { d.push(format!("step {}: pc/raw differ", pre.index)); break; }
+        if a.outcome != post.outcome { d.push(format!("step {}: outcome {:?} vs {:?}", pre.index, a.outcome, post.outcome)); break; }
+        if a.storage != post.storage { d.push(format!("step {}: storage events differ", pre.index)); break; }
+        if a.regs_after != post.regs { d.push(format!("step {}: registers differ", pre.index)); break; }
+    }
+    if t.final_state != r.final_state { d.push(format!("final state {:?} vs {:?}", t.final_state, r.final_state)); }
+    d
+}
+
 pub fn reason_byte(r: PanicReason) -> u64 { r as u8 as u64 }
 pub fn outcome_code(o: &Outcome) -> (u64, u64) {
     match o {
